@@ -18,6 +18,9 @@ pub mod quote;
 
 mod core_mapfiles;
 
+#[cfg(truth_verif)]
+pub mod verif_hooks;
+
 pub use ast::{Visit, VisitMut};
 pub mod ast;
 pub use fmt::{Format, Formatter};
